@@ -185,6 +185,17 @@ def main():
         sh(["git", "checkout", "--", "."], cwd=WT)
     finally:
         sh(["git", "-C", "/repo", "worktree", "remove", "--force", WT])
+    # the two genuine defects that were repaired: reverting a `fix:` commit must bring the report back
+    for name, prop, commit, note in [
+        ("revert_fix_c08_empty_merge", "C08", "3d2d4eb", "reverts the repair of the empty array/Vec merge (panics in Indexer::iter)"),
+        ("revert_fix_c15_take0", "C15", "ce43740", "reverts the repair of take(0) (processes the first item)"),
+    ]:
+        d = sh(["git", "-C", "/repo", "show", "-R", "--format=", commit, "--", "src"]).stdout
+        open(os.path.join(OUT, name + ".diff"), "w").write(d)
+        e = {"name": name, "property": prop, "patch": f"mutants/{name}.diff", "what": note, "files": ["(revert of " + commit + ")"]}
+        if name in old_index and "validated" in old_index[name] and not validate:
+            e["validated"] = old_index[name]["validated"]
+        index.append(e)
     if validate:
         def val(e):
             wt = f"/tmp/verif-mutval-{e['name']}"
